@@ -592,8 +592,21 @@ def assemble(unit, items=None, twin=False):
         text = it["text"]
         if it["kind"] == "enum" and "<S: Scheme>" in text:
             pass
+        manual_clone = False
+        if family == "cl" and it["kind"] == "struct" and re.search(r"#\[derive\(([^)]*)\)\]", text):
+            # derived Clone on a struct of Integers / Vecs: replace by an explicit impl with the contract
+            # `r == *self` (fieldwise clone; Integer::clone preserves the view) so that clones are usable in specs
+            m = re.search(r"#\[derive\(([^)]*)\)\]", text)
+            ds = [d.strip() for d in m.group(1).split(",")]
+            generic = re.search(r"struct\s+\w+\s*<", text) is not None
+            if "Clone" in ds and "Copy" not in ds and not generic:
+                text = text[: m.start()] + text[m.end():]
+                manual_clone = True
         for i, l in enumerate(text.split("\n")):
             out.add(l, kind="type", file=rel, line=it["line"] + i, item=tp)
+        if manual_clone:
+            name = tp.split("::")[-1]
+            out.add(f"impl Clone for {name} {{ #[verifier::external_body] fn clone(&self) -> (r: Self) ensures r == *self {{ unimplemented!() }} }}", kind="glue", item=tp)
         if it["kind"] in ("impl_const",):
             pass
     if family == "bbs" and unit.get("scheme_glue", True):
